@@ -545,7 +545,20 @@ def generics_rule(syn, prop, rule="C07.R1", crate=None):
                 walks = any(M2.fn_matches(t, r"Generics::type_params$") or (M2.fn_matches(t, r"Punctuated::<T, P>::iter$") and "GenericParam" in (t.get("arg_tys") or [""])[0]) for b in reach for _, t in b.calls())
                 looks = any(M2.fn_matches(t, r"HashMap::<K, V, S(, A)?>::(contains_key|get)$") and "Ident" in (t.get("arg_tys") or [""])[0] for b in reach for _, t in b.calls())
                 hashed = any(re.search(r"Hash(Map|Set)<[^>]*(TypeParam|GenericParam)", l["ty"]) for b in reach for l in b.locals)
-                if walks and looks and not hashed:
+                partial = None
+                for bx in reach:
+                    cks = [blk for blk, t in bx.calls() if not bx.is_cleanup(blk) and M2.fn_matches(t, r"HashMap::<K, V, S(, A)?>::contains_key$") and "Ident" in (t.get("arg_tys") or [""])[0]]
+                    if not cks or bx.kind != "Closure":
+                        continue
+                    # a closure that decides about one parameter: every way out that keeps the parameter passes the test
+                    drops = {blk for blk in range(bx.n) if not bx.is_cleanup(blk) for st in bx.stmts(blk)
+                             if st["k"] == "assign" and st["dst"]["l"] == 0 and ((st["rv"]["k"] == "agg" and st["rv"].get("variant") == "None") or
+                                                                                 (st["rv"]["k"] == "use" and (M2.op_const(st["rv"]["op"]) or {}).get("int") == 0))}
+                    if not bx.all_paths_pass(0, set(cks) | drops, bx.returns()):
+                        partial = bx.path
+                if partial:
+                    treat = "the `concrete` test in %s does not cover every arm that keeps a parameter" % partial
+                elif walks and looks and not hashed:
                     ok = True
                     treat = "walks type_params() and consults `concrete` (confirmed on the MIR; written with helpers / loops)"
         r.inst(fn=qual, source=[S.squash(e["recv"]) + "." + e["method"] for e in src], treatment=treat, ok=ok)
